@@ -4,8 +4,51 @@ import sys
 import vlib
 
 
+def hygiene_static():
+    """Every file of the static library: no Axiom / Parameter / Conjecture / Admitted / admit / Admit Obligations / guard,
+    positivity or universe switches; Variable / Hypothesis / Context only inside a Section (discharged at End).  Comments
+    (nested) and string literals are stripped first.  -> list of findings"""
+    import re
+    pat = re.compile(r"^\s*(Axiom|Axioms|Parameter|Parameters|Conjecture|Admitted|Admit Obligations|"
+                     r"Unset Guard Checking|Unset Positivity Checking|Unset Universe Checking)\b|\badmit\b|bypass_check")
+    ctx = re.compile(r"^\s*(Variable|Variables|Hypothesis|Hypotheses|Context)\b")
+    bad = []
+    for line in open(os.path.join(vlib.COQ, "_CoqProject")):
+        line = line.strip()
+        if not line.endswith(".v"):
+            continue
+        src = open(os.path.join(vlib.COQ, line)).read()
+        out, d, i = [], 0, 0
+        while i < len(src):
+            if src.startswith("(*", i):
+                d += 1
+                i += 2
+                continue
+            if src.startswith("*)", i) and d > 0:
+                d -= 1
+                i += 2
+                continue
+            if d == 0 or src[i] == "\n":
+                out.append(src[i])
+            i += 1
+        src = re.sub(r'"[^"\n]*"', '""', "".join(out))
+        depth = 0
+        for k, l in enumerate(src.splitlines()):
+            if re.match(r"^\s*(Section|Module Type)\s+\w+", l):
+                depth += 1
+            elif re.match(r"^\s*End\s+\w+\s*\.", l) and depth > 0:
+                depth -= 1
+            if pat.search(l) or (depth == 0 and ctx.search(l)):
+                bad.append("%s:%d: %s" % (line, k + 1, l.strip()[:120]))
+    return bad
+
+
 def run():
     os.makedirs(vlib.BUILD, exist_ok=True)
+    bad = hygiene_static()
+    if bad:
+        print("static library hygiene: forbidden declarations\n" + "\n".join(bad[:40]))
+        return 1
     with vlib.Lock("setup"):
         vlib.build_gen_tool()
         rc, out, dt = vlib.sh(["coq_makefile", "-f", "_CoqProject", "-o", "Makefile"], cwd=vlib.COQ, env=dict(os.environ))
